@@ -485,6 +485,9 @@ def random_spec(rng, n):
 
 # ----------------------------------------------------------------------------- negative twins
 
+# Writes to a name imported with `import x from m` are accepted BY DESIGN (the repository's own test
+# assignments::not_import_const_bypass): the imported name is a local copy.  They are positive catalogue cases
+# (local_copy_cases below), not negative twins.
 NEG_KINDS = {
     # kind: (form of the edge, statements appended to the importer) ; %(m)s = target module name
     "read_hidden_member": ("S", ['print %(m)s.%(m)s_hid']),
@@ -493,10 +496,6 @@ NEG_KINDS = {
     "assign_member_cell": ("S", ['neg_l: [int...] = [9]', '%(m)s.%(m)s_cell = neg_l', 'print %(m)s.%(m)s_peek()']),
     "assign_member_fn": ("S", ['%(m)s.%(m)s_peek = fn() -> int {', '  return 0', '}', 'print %(m)s.%(m)s_peek()']),
     "opassign_member": ("S", ['%(m)s.%(m)s_n += 5', 'print %(m)s.%(m)s_n']),
-    "assign_imported_name": ("S", ['import %(m)s_n from %(p)s', '%(m)s_n = 5', 'print %(m)s_n']),
-    "opassign_imported_name": ("S", ['import %(m)s_n from %(p)s', '%(m)s_n += 5', 'print %(m)s_n']),
-    "assign_imported_fn": ("N", ['%(m)s_peek = fn() -> int {', '  return 0', '}', 'print %(m)s_peek()']),
-    "assign_imported_cell": ("N", ['neg_l: [int...] = [9]', '%(m)s_cell = neg_l', 'print %(m)s_peek()']),
 }
 
 
@@ -526,9 +525,87 @@ def negative_twins(max_n=3):
                     yield "%s/edge%d%d/%s" % (dag_id(n, edges), i, j, kind), kind, where, spec
 
 
+# ----------------------------------------------------------------------------- imported names are local copies
+
+def local_copy_cases():
+    """`import x from m` gives the importer a local copy: rebinding / op-assigning it is accepted and must leave the
+    module's own export (`m.x`) unchanged.  The importer is the entry or a module imported by the entry.
+    Afterwards the module's own functions are called again: they must work on the module's state, not on the
+    importer's same-named variables (this part depends on the C07 repair in /repo).
+    Yields (case id, files, expected lines, expected events)."""
+    body = ['import ma',
+            'import ma_n, ma_peek, ma_cell from ma',
+            'print "%(X)s n " + ma_n',
+            'print "%(X)s ma.peek " + ma.ma_peek()',
+            'ma_n = 5',
+            'print "%(X)s n " + ma_n',
+            'print "%(X)s ma.n " + ma.ma_n',
+            'ma_n += 5',
+            'print "%(X)s n " + ma_n',
+            'print "%(X)s ma.n " + ma.ma_n',
+            'ma_peek = fn() -> int {',
+            '  return 0',
+            '}',
+            'print "%(X)s peek " + ma_peek()',
+            '%(X)s_l: [int...] = [9]',
+            'ma_cell = %(X)s_l',
+            'print "%(X)s cell " + ma_cell[0]',
+            '%(X)s_c = ma.ma_cell',
+            'print "%(X)s ma.cell " + %(X)s_c[0]',
+            'print "%(X)s ma.typeof " + typeof ma.ma_peek',
+            # the module's own functions still work on the module's state (needs the C07 repair 47cd0a4: before it
+            # they read the importer's same-named variables)
+            'print "%(X)s ma.bump " + ma.ma_bump()',
+            'print "%(X)s ma.peek " + ma.ma_peek()',
+            'print "%(X)s ma.n " + ma.ma_n',
+            '%(X)s_c2 = ma.ma_cell',
+            'print "%(X)s ma.cell " + %(X)s_c2[0]',
+            'print "%(X)s n " + ma_n',
+            'print "%(X)s cell " + ma_cell[0]']
+    exp = ['%(X)s n 1', '%(X)s ma.peek 101', '%(X)s n 5', '%(X)s ma.n 1', '%(X)s n 10', '%(X)s ma.n 1', '%(X)s peek 0',
+           '%(X)s cell 9', '%(X)s ma.cell 1', '%(X)s ma.typeof fn() -> int', '%(X)s ma.bump 2', '%(X)s ma.peek 202',
+           '%(X)s ma.n 2', '%(X)s ma.cell 2', '%(X)s n 10', '%(X)s cell 9']
+    ma = ('print "init ma:begin"\n' + decl_src("ma", True) + 'print "ma self " + ma_bump()\nprint "init ma:end"\n')
+    ma_lines = ["init ma:begin", "ma self 1", "init ma:end"]
+    for where in ("entry", "module"):
+        X = "main" if where == "entry" else "mb"
+        src = "\n".join(l % {"X": X} for l in body) + "\n"
+        lines = [l % {"X": X} for l in exp]
+        if where == "entry":
+            files = {"ma.ms": ma, "main.ms": 'print "init main:begin"\n' + src + 'print "init main:end"\n'}
+            out = ["init main:begin"] + ma_lines + lines + ["init main:end"]
+            ev = [("miss", "ma"), ("hit", "ma")]
+        else:
+            files = {"ma.ms": ma, "mb.ms": 'print "init mb:begin"\n' + src + 'export mb_v: int = 1\nprint "init mb:end"\n',
+                     "main.ms": 'print "init main:begin"\nimport mb\nimport ma\nprint "main ma.n " + ma.ma_n\n'
+                                'print "main ma.peek " + ma.ma_peek()\nprint "init main:end"\n'}
+            out = (["init main:begin", "init mb:begin"] + ma_lines + lines +
+                   ["init mb:end", "main ma.n 2", "main ma.peek 202", "init main:end"])
+            ev = [("miss", "mb"), ("miss", "ma"), ("hit", "ma"), ("hit", "ma")]
+        yield "cat:imported_name_is_local_copy@" + where, files, out, ev
+
+
 # ----------------------------------------------------------------------------- path spellings
 
 SPELLS = ("plain", "dot", "ext", "dotext", "dotdot")
+
+
+def cache_key(spec, e):
+    """The path text from which the compiler builds the module-cache key for this import statement."""
+    d = mod_dir(spec, e["i"])
+    p = spelled(spec, e)
+    if p.endswith(".ms"):
+        p = p[:-3]
+    return (d + "/" if d else "") + p
+
+
+def spelling_class(spec):
+    """'same_key' when every import of a module is spelled to the same cache key text (extension aside), else
+    'unnormalised_path' (the one root cause of the path-spelling finding)."""
+    keys = {}
+    for e in spec["edges"]:
+        keys.setdefault(e["j"], set()).add(cache_key(spec, e))
+    return "same_key" if all(len(v) == 1 for v in keys.values()) else "unnormalised_path"
 
 
 def spelling_cases(full):
@@ -540,14 +617,13 @@ def spelling_cases(full):
         for form in (("S", "S", "S"),) if not full else (("S", "S", "S"), ("N", "S", "N"), ("SN", "S", "NS")):
             spec = make_spec(3, edges, form, ["pre", "post", "pre"], None, (), [a, "plain", b])
             spec["need_sub"] = True
-            cls = "+".join(sorted({a, b})) if a != b else "same:" + a
-            yield "spelling:%s,%s/%s" % (a, b, ".".join(form)), cls, spec
+            yield "spelling:%s,%s/%s" % (a, b, ".".join(form)), spelling_class(spec), spec
     if full:
-        # the same module in sub/: `sub/ma` from the root against `./ma` from a sibling in sub/
-        for a, b in (("plain", "dot"), ("dot", "plain"), ("dot", "dot"), ("plain", "plain"), ("ext", "dot")):
+        # the same module in sub/: `sub/ma` from the root against `ma` / `./ma` from a sibling in sub/
+        for a, b in (("plain", "dot"), ("dot", "plain"), ("dot", "dot"), ("plain", "plain"), ("ext", "dot"),
+                     ("ext", "plain"), ("dotext", "ext")):
             spec = make_spec(3, edges, ("S", "S", "S"), ["pre", "post", "pre"], None, (1, 2), [a, "plain", b])
-            cls = "+".join(sorted({a, b})) if a != b else "same:" + a
-            yield "spelling@sub:%s,%s" % (a, b), cls + "@sub", spec
+            yield "spelling@sub:%s,%s" % (a, b), spelling_class(spec), spec
 
 
 # ----------------------------------------------------------------------------- pinned catalogue
